@@ -13,6 +13,7 @@ mod c03;
 mod c04;
 mod c06;
 mod scen;
+mod c10;
 mod c11;
 mod c12;
 mod c13;
@@ -56,6 +57,7 @@ fn main() {
         "C03" => c03::run(&args),
         "C04" => c04::run(&args),
         "C06" => c06::run(&args),
+        "C10" => c10::run(&args),
         "C11" => c11::run(&args),
         "C12" => c12::run(&args),
         "C13" => c13::run(&args),
@@ -95,6 +97,7 @@ fn replay(path: &str) -> i32 {
         "C03" => c03::replay(r),
         "C04" => c04::replay(r),
         "C06" => c06::replay(r),
+        "C10" => c10::replay(r),
         "C11" => c11::replay(r),
         "C12" => c12::replay(r),
         "C13" => c13::replay(r),
